@@ -39,7 +39,7 @@ fn assigned_vars(stmts: &[syn::Stmt]) -> Vec<String> {
         }
         fn visit_expr_method_call(&mut self, m: &'ast syn::ExprMethodCall) {
             let name = m.method.to_string();
-            if matches!(name.as_str(), "push" | "push_str" | "clear" | "resize" | "truncate" | "insert" | "pop" | "extend" | "extend_from_slice" | "set" | "store_le") {
+            if matches!(name.as_str(), "push" | "push_str" | "clear" | "resize" | "truncate" | "insert" | "pop" | "extend" | "extend_from_slice" | "set" | "store_le" | "next") {
                 if let Some(n) = V::root(&m.receiver) {
                     self.add(n);
                 }
@@ -117,6 +117,26 @@ fn has_escape(e: &syn::Expr) -> bool {
     v.0
 }
 
+/// a `break 'l` in the body (outside nested closures) whose label is not the loop's own
+fn has_far_break(stmts: &[syn::Stmt], own: Option<&str>) -> bool {
+    struct V<'a>(Option<&'a str>, bool);
+    impl<'ast, 'a> syn::visit::Visit<'ast> for V<'a> {
+        fn visit_expr_break(&mut self, b: &'ast syn::ExprBreak) {
+            if let Some(l) = &b.label {
+                if Some(l.ident.to_string().as_str()) != self.0 {
+                    self.1 = true;
+                }
+            }
+        }
+        fn visit_expr_closure(&mut self, _c: &'ast syn::ExprClosure) {}
+    }
+    let mut v = V(own, false);
+    for s in stmts {
+        syn::visit::Visit::visit_stmt(&mut v, s);
+    }
+    v.1
+}
+
 fn has_value_return(stmts: &[syn::Stmt]) -> bool {
     // a `return` inside the body that is not `return Err(..)` / fail!(..)
     struct V(bool);
@@ -180,6 +200,28 @@ impl<'g> FnCx<'g> {
         }
     }
 
+    /// does evaluating the expression change a variable (assignment, mutating method, `&mut` argument, or a
+    /// translated `&mut self` method)?  Such constructs cannot be joined as plain values.
+    pub fn mutates_state(&self, e: &syn::Expr) -> bool {
+        let st = syn::Stmt::Expr(e.clone(), None);
+        if !assigned_vars(std::slice::from_ref(&st)).is_empty() {
+            return true;
+        }
+        struct V<'a>(&'a Global, bool);
+        impl<'ast, 'a> syn::visit::Visit<'ast> for V<'a> {
+            fn visit_expr_method_call(&mut self, m: &'ast syn::ExprMethodCall) {
+                let name = m.method.to_string();
+                if self.0.fns.iter().any(|(k, sig)| k.ends_with(&format!("::{}", name)) && sig.params.first().map(|p| p.mut_ref).unwrap_or(false)) {
+                    self.1 = true;
+                }
+                syn::visit::visit_expr_method_call(self, m);
+            }
+        }
+        let mut v = V(self.g, false);
+        syn::visit::Visit::visit_expr(&mut v, e);
+        v.1
+    }
+
     pub fn block(&mut self, stmts: &[syn::Stmt], k: K) -> R<String> {
         self.scopes.push(HashMap::new());
         let r = self.stmts(stmts, &|cx, v| {
@@ -198,7 +240,7 @@ impl<'g> FnCx<'g> {
         }
         let (first, rest) = stmts.split_first().unwrap();
         match first {
-            syn::Stmt::Item(syn::Item::Fn(_)) | syn::Stmt::Item(syn::Item::Use(_)) => self.stmts(rest, k),
+            syn::Stmt::Item(syn::Item::Fn(_)) | syn::Stmt::Item(syn::Item::Use(_)) | syn::Stmt::Item(syn::Item::Struct(_)) => self.stmts(rest, k),
             syn::Stmt::Item(_) => unsupported("item in a block", first.span()),
             syn::Stmt::Local(l) => {
                 fn has_infer(t: &syn::Type) -> bool {
@@ -251,7 +293,7 @@ impl<'g> FnCx<'g> {
                                 return self.stmts(rest, k);
                             }
                         }
-                        if matches!(strip_paren(e), syn::Expr::If(_) | syn::Expr::Match(_) | syn::Expr::Block(_)) && !has_escape(e) {
+                        if matches!(strip_paren(e), syn::Expr::If(_) | syn::Expr::Match(_) | syn::Expr::Block(_)) && !has_escape(e) && !self.mutates_state(e) {
                             let v = self.value_join(e, declared_ty.as_ref())?;
                             let mut steps = v.steps.clone();
                             let ty = match &declared_ty {
@@ -317,6 +359,60 @@ impl<'g> FnCx<'g> {
                 }
             }
             "panic" | "unreachable" => Ok(syn::parse_quote!(__rs2lean_panic())),
+            "format" => {
+                // format!("…{a}…{b}…") with inline identifier placeholders only: concatenation of the pieces
+                let lit: syn::LitStr = m.parse_body().map_err(|_| "unsupported: format! with arguments after the literal".to_string())?;
+                let text = lit.value();
+                let mut pieces: Vec<syn::Expr> = vec![];
+                let mut cur = String::new();
+                let mut chars = text.chars().peekable();
+                while let Some(ch) = chars.next() {
+                    if ch == '{' {
+                        if chars.peek() == Some(&'{') {
+                            chars.next();
+                            cur.push('{');
+                            continue;
+                        }
+                        let mut name = String::new();
+                        for c2 in chars.by_ref() {
+                            if c2 == '}' {
+                                break;
+                            }
+                            name.push(c2);
+                        }
+                        if name.is_empty() || !name.chars().all(|c| c.is_alphanumeric() || c == '_') {
+                            return unsupported("format! placeholder", m.span());
+                        }
+                        if !cur.is_empty() {
+                            let l = syn::LitStr::new(&cur, proc_macro2::Span::call_site());
+                            pieces.push(syn::parse_quote!(#l));
+                            cur.clear();
+                        }
+                        let id = syn::Ident::new(&name, proc_macro2::Span::call_site());
+                        pieces.push(syn::parse_quote!(#id));
+                    } else if ch == '}' {
+                        if chars.peek() == Some(&'}') {
+                            chars.next();
+                        }
+                        cur.push('}');
+                    } else {
+                        cur.push(ch);
+                    }
+                }
+                if !cur.is_empty() {
+                    let l = syn::LitStr::new(&cur, proc_macro2::Span::call_site());
+                    pieces.push(syn::parse_quote!(#l));
+                }
+                Ok(syn::parse_quote!(__rs2lean_concat(#(#pieces),*)))
+            }
+            "assert" => {
+                // assert!(cond, "message"): panic unless cond
+                let args = m
+                    .parse_body_with(syn::punctuated::Punctuated::<syn::Expr, syn::Token![,]>::parse_terminated)
+                    .map_err(|e| format!("unsupported: assert! body: {}", e))?;
+                let cond = args.first().ok_or("unsupported: empty assert!")?.clone();
+                Ok(syn::parse_quote!(if !(#cond) { __rs2lean_panic() }))
+            }
             _ => unsupported(&format!("macro {}!", name), m.span()),
         }
     }
@@ -324,6 +420,28 @@ impl<'g> FnCx<'g> {
     /// an expression in statement position followed by `rest`
     fn stmt_expr(&mut self, e: &syn::Expr, rest: &[syn::Stmt], k: K, _semi: bool) -> R<String> {
         match e {
+            syn::Expr::Assign(a) if matches!(strip_paren(&a.left), syn::Expr::Index(_)) => {
+                // `place[i] = e`: panics when `i` is out of bounds
+                let ix = match strip_paren(&a.left) {
+                    syn::Expr::Index(ix) => ix,
+                    _ => unreachable!(),
+                };
+                let (cur, pty, setter) = self.place(&ix.expr)?;
+                let elem = match self.u.resolve(&pty) {
+                    Ty::List(t) => *t,
+                    _ => return unsupported("index assignment into a non-list", a.span()),
+                };
+                let i = self.expr(&ix.index, Some(&Ty::usize()))?;
+                self.u.unify(&i.ty, &Ty::usize())?;
+                let v = self.expr(&a.right, Some(&elem))?;
+                self.u.unify(&elem, &v.ty)?;
+                let mut steps = i.steps.clone();
+                steps.extend(v.steps.clone());
+                steps.push(Step::Guard(format!("{} < {}.length", i.atom, paren_atom(&cur)), ".panic".into()));
+                steps.push(setter(&format!("{}.set {} {}", paren_atom(&cur), paren_atom(&i.atom), paren_atom(&v.atom))));
+                let rest_text = self.stmts(rest, k)?;
+                Ok(wrap(&steps, rest_text))
+            }
             syn::Expr::Assign(a) if matches!(strip_paren(&a.left), syn::Expr::Field(_)) => {
                 // `x.f = e`: structure update
                 let fe = match strip_paren(&a.left) {
@@ -421,15 +539,28 @@ impl<'g> FnCx<'g> {
                 }
             }
             syn::Expr::Break(b) => {
-                if b.label.is_some() || b.expr.is_some() {
-                    return unsupported("labelled break / break with value", b.span());
+                if b.expr.is_some() {
+                    return unsupported("break with value", b.span());
                 }
                 let l = self.loop_stack.last().ok_or("unsupported: break outside a loop")?;
+                if let Some(lbl) = &b.label {
+                    let name = lbl.ident.to_string();
+                    if l.label.as_deref() != Some(name.as_str()) {
+                        // a break of the directly enclosing loop
+                        if self.enclosing_label.as_deref() == Some(name.as_str()) {
+                            return l.far_break_text.clone().ok_or_else(|| "internal: far break text".to_string());
+                        }
+                        return unsupported("break of a loop that is not the current or the directly enclosing one", b.span());
+                    }
+                }
                 Ok(l.break_text.clone())
             }
             syn::Expr::Continue(c) => {
-                if c.label.is_some() {
-                    return unsupported("labelled continue", c.span());
+                if let Some(lbl) = &c.label {
+                    let own = self.loop_stack.last().and_then(|l| l.label.clone());
+                    if own.as_deref() != Some(lbl.ident.to_string().as_str()) {
+                        return unsupported("continue of an outer loop", c.span());
+                    }
                 }
                 let l = self.loop_stack.last().ok_or("unsupported: continue outside a loop")?;
                 Ok(l.continue_text.clone())
@@ -437,21 +568,34 @@ impl<'g> FnCx<'g> {
             syn::Expr::If(i) => self.if_k(i, expect, k),
             syn::Expr::Match(m) => self.match_k(m, expect, k),
             syn::Expr::ForLoop(f) => self.for_loop(f, k),
+            // statements used where a value is expected (match arms, closures): run them, value `()`
+            syn::Expr::Assign(_) => self.stmt_expr(e, &[], &|cx, _| k(cx, None), true),
+            syn::Expr::Binary(b) if assign_op(&b.op).is_some() => self.stmt_expr(e, &[], &|cx, _| k(cx, None), true),
+            syn::Expr::MethodCall(m) if self.is_mutating_method(m) && !matches!(m.method.to_string().as_str(), "next" | "pop") => self.stmt_expr(e, &[], &|cx, _| k(cx, None), true),
             syn::Expr::While(w) => {
-                if w.label.is_some() {
-                    return unsupported("labelled while", w.span());
+                let label = w.label.as_ref().map(|l| l.name.ident.to_string());
+                if let syn::Expr::Let(l) = &*w.cond {
+                    // `while let P = e { body }`  ==  `loop { match e { P => body, _ => break } }`
+                    let (pat, scrut, body) = (&*l.pat, &*l.expr, &w.body);
+                    if label.is_some() {
+                        return unsupported("labelled while let", w.span());
+                    }
+                    let lp: syn::Expr = syn::parse_quote!(loop { match #scrut { #pat => #body, _ => break, } });
+                    return self.expr_k(&lp, expect, k);
                 }
-                self.fuel_loop(Some(&w.cond), &w.body.stmts, k)
+                self.fuel_loop(Some(&w.cond), &w.body.stmts, label, k)
             }
             syn::Expr::Loop(l) => {
-                if l.label.is_some() {
-                    return unsupported("labelled loop", l.span());
-                }
-                self.fuel_loop(None, &l.body.stmts, k)
+                let label = l.label.as_ref().map(|l| l.name.ident.to_string());
+                self.fuel_loop(None, &l.body.stmts, label, k)
             }
             _ => {
+                // the steps of the expression (guards, binds) enclose whatever the continuation does with the value,
+                // also when the continuation ignores the value
                 let v = self.expr(e, expect)?;
-                k(self, Some(v))
+                let steps = v.steps.clone();
+                let inner = k(self, Some(Val { steps: vec![], ..v }))?;
+                Ok(wrap(&steps, inner))
             }
         }
     }
@@ -647,30 +791,30 @@ impl<'g> FnCx<'g> {
 
     /// a `for` loop: an auxiliary structurally recursive function over the iterated list
     fn for_loop(&mut self, f: &syn::ExprForLoop, k: K) -> R<String> {
-        if f.label.is_some() {
-            return unsupported("labelled for", f.span());
-        }
+        let label = f.label.as_ref().map(|l| l.name.ident.to_string());
         let iter = self.iter_expr(&f.expr)?; // a list-valued Val
         let elem_ty = match self.u.resolve(&iter.ty) {
             Ty::List(t) => *t,
             Ty::Str => Ty::u8(),
             other => return Err(format!("unsupported: for over {:?}", other)),
         };
-        self.loop_common(Some((&f.pat, elem_ty, iter)), None, &f.body.stmts, k)
+        self.loop_common(Some((&f.pat, elem_ty, iter)), None, &f.body.stmts, label, k)
     }
 
-    fn fuel_loop(&mut self, cond: Option<&syn::Expr>, body: &[syn::Stmt], k: K) -> R<String> {
+    fn fuel_loop(&mut self, cond: Option<&syn::Expr>, body: &[syn::Stmt], label: Option<String>, k: K) -> R<String> {
         self.uses_fuel = true;
-        self.loop_common(None, cond, body, k)
+        self.loop_common(None, cond, body, label, k)
     }
 
-    fn loop_common(&mut self, iter: Option<(&syn::Pat, Ty, Val)>, cond: Option<&syn::Expr>, body: &[syn::Stmt], k: K) -> R<String> {
+    fn loop_common(&mut self, iter: Option<(&syn::Pat, Ty, Val)>, cond: Option<&syn::Expr>, body: &[syn::Stmt], label: Option<String>, k: K) -> R<String> {
         self.loops += 1;
         let loop_name = format!("{}.loop{}", self.lean_name, self.loops);
         let assigned: Vec<String> = assigned_vars(body).into_iter().filter(|n| self.lookup(n).is_some()).collect();
         let mentioned: Vec<String> = mentioned_vars(body, cond).into_iter().filter(|n| self.lookup(n).is_some()).collect();
         // the &mut parameters must be threaded through when the body can return from the function
-        let has_ret = has_value_return(body);
+        let has_far = has_far_break(body, label.as_deref());
+        let has_value_ret = has_value_return(body);
+        let has_ret = has_value_ret || has_far;
         let mut state: Vec<String> = assigned.clone();
         if has_ret {
             for p in self.mut_params.clone() {
@@ -694,6 +838,9 @@ impl<'g> FnCx<'g> {
             format!("{}{}{} fuel{}", loop_name, ga, cap_args, st_args)
         };
         let break_text = if has_ret { format!(".ok (.done {})", st_tuple) } else { format!(".ok {}", st_tuple) };
+        let far_break_text = if has_far { Some(format!(".ok (.brk {})", st_tuple)) } else { None };
+        let outer_label_here = self.loop_stack.last().and_then(|l| l.label.clone());
+        let outer_break_here = self.loop_stack.last().map(|l| l.break_text.clone());
         // ---- the loop function
         let saved_in_loop = self.in_loop_fn;
         let saved_stack = std::mem::take(&mut self.loop_stack);
@@ -703,7 +850,8 @@ impl<'g> FnCx<'g> {
             // nested loop without its own value return inside a loop function: a `return` cannot occur in it
             self.in_loop_fn = false;
         }
-        self.loop_stack.push(LoopCx { continue_text: continue_text.clone(), break_text: break_text.clone(), has_ret });
+        let saved_enclosing = std::mem::replace(&mut self.enclosing_label, outer_label_here);
+        self.loop_stack.push(LoopCx { continue_text: continue_text.clone(), break_text: break_text.clone(), has_ret, label: label.clone(), far_break_text });
         self.scopes.push(HashMap::new());
         let mut head_steps = vec![];
         if let Some((pat, elem_ty, _)) = &iter {
@@ -721,6 +869,7 @@ impl<'g> FnCx<'g> {
         self.scopes.pop();
         self.loop_stack = saved_stack;
         self.in_loop_fn = saved_in_loop;
+        self.enclosing_label = saved_enclosing;
         // types after the body has been seen (unification may have fixed literals)
         let cap_params = cap_vars.iter().map(|v| format!(" ({} : {})", v.lean, lean_ty(&self.u.resolve(&v.ty)))).collect::<String>();
         let st_tys: Vec<String> = st_vars.iter().map(|v| lean_ty(&self.u.resolve(&v.ty))).collect();
@@ -729,7 +878,7 @@ impl<'g> FnCx<'g> {
             let sig_like = FnSig { lean: String::new(), params: self.mut_params.iter().map(|p| Param { name: p.clone(), ty: self.lookup(p).map(|v| v.ty).unwrap_or(Ty::Unit), mut_ref: true }).collect(), ret: self.ret.clone(), fuel: false, generics: vec![] };
             lean_ret(&sig_like).trim_start_matches("Res ").to_string()
         };
-        let out_ty = if has_ret { format!("Res (Exit {} ({}))", ret_payload_ty, st_ty_text) } else { format!("Res ({})", st_ty_text) };
+        let out_ty = if has_ret { format!("Res ({} {} ({}))", if has_far { "ExitB" } else { "Exit" }, ret_payload_ty, st_ty_text) } else { format!("Res ({})", st_ty_text) };
         let st_arrows = st_tys.iter().map(|t| format!("{} → ", t)).collect::<String>();
         let st_pats = st_vars.iter().map(|v| format!(", {}", v.lean)).collect::<String>();
         let def = if let Some((_, elem_ty, _)) = &iter {
@@ -772,8 +921,23 @@ impl<'g> FnCx<'g> {
         let iter_steps = iter.map(|(_, _, v)| v.steps).unwrap_or_default();
         let text = if has_ret {
             let r = self.fresh_tmp();
-            let ret_leaf = if self.in_loop_fn { format!(".ok (.ret {})", r) } else { format!(".ok {}", r) };
-            format!("match {} with\n| .error e => .error e\n| .ok (.ret {}) => {}\n| .ok (.done {}) =>\n{}", call, r, ret_leaf, st_tuple, indent(&after))
+            let ret_leaf = if !has_value_ret {
+                ".error .panic".to_string() // not produced by this loop (it contains no `return`)
+            } else if self.in_loop_fn {
+                format!(".ok (.ret {})", r)
+            } else {
+                format!(".ok {}", r)
+            };
+            // `.brk`: the body broke out of the loop that encloses this one
+            let brk_leaf = match (has_far, &outer_break_here) {
+                (true, Some(b)) => b.clone(),
+                _ => ".error .panic".to_string(), // not produced by this loop
+            };
+            if has_far {
+                format!("match {} with\n| .error e => .error e\n| .ok (.ret {}) => {}\n| .ok (.brk {}) => {}\n| .ok (.done {}) =>\n{}", call, r, ret_leaf, st_tuple, brk_leaf, st_tuple, indent(&after))
+            } else {
+                format!("match {} with\n| .error e => .error e\n| .ok (.ret {}) => {}\n| .ok (.done {}) =>\n{}", call, r, ret_leaf, st_tuple, indent(&after))
+            }
         } else {
             format!("match {} with\n| .error e => .error e\n| .ok {} =>\n{}", call, st_tuple, indent(&after))
         };
